@@ -591,6 +591,10 @@ pub fn run_real(sc: &WireScenario, quiet_ms: u64) -> Result<RealRun, String> {
         replies.push(r);
         std::thread::sleep(Duration::from_millis(20));
         let settled = rc.wait_settled(quiet_ms, 8000);
+        if op.cmd.starts_with("snapshot ") {
+            // the declutter timer of every node fires once a second
+            std::thread::sleep(Duration::from_millis(2300));
+        }
         per_op.push(rc.traffic_from(from));
         if let Err(e) = settled {
             unsettled = Some(format!("after n{} `{}`: {}", op.node + 1, op.cmd, e));
@@ -646,6 +650,9 @@ pub fn run_model(sc: &WireScenario) -> Result<ModelRun, String> {
         w.clients[ci].script.push_back(op.cmd.clone());
         w.clients[ci].done = false;
         w.run_to_quiescence(20000)?;
+        if op.cmd.starts_with("snapshot ") {
+            w.run_snapshot_queues();
+        }
         per_op.push(w.traffic.iter().map(|(f, t, l)| (*f, *t, l.starts_with(REPLY_MARK), l.trim_start_matches(REPLY_MARK).to_string())).collect());
     }
     let mut nth: BTreeMap<(usize, usize), usize> = BTreeMap::new();
@@ -759,6 +766,14 @@ pub fn default_scenario(nodes: usize, strategy: &'static str) -> WireScenario {
         (0, "set-permissions bob rw k*|r c*"),
         (0, "get k"),
         (last, "get c"),
+        // snapshots are carried out by every node's declutter timer; what they persist or
+        // reclaim decides the versions later writes get
+        (0, "set k w1"),
+        (0, "snapshot false t"),
+        (0, "remove k"),
+        (0, "snapshot true t"),
+        (0, "set k w2"),
+        (last, "set k w3"),
     ] {
         ops.push(WireOp { node, cmd: cmd.to_string() });
     }
